@@ -58,9 +58,20 @@ impl CaoLangAllocator {
         Self {
             runtime: vm,
             allocated: AtomicUsize::new(0),
-            next_gc: AtomicUsize::new((limit / 4).max(16)),
+            next_gc: AtomicUsize::new(Self::initial_threshold(limit)),
             limit: AtomicUsize::new(limit),
         }
+    }
+
+    fn initial_threshold(limit: usize) -> usize {
+        (limit / 4).max(16)
+    }
+
+    /// Forget the collection history (used when the runtime is cleared)
+    pub fn reset_threshold(&self) {
+        let limit = self.limit.load(Ordering::Relaxed);
+        self.next_gc
+            .store(Self::initial_threshold(limit), Ordering::Relaxed);
     }
 
     /// # Safety
@@ -68,19 +79,29 @@ impl CaoLangAllocator {
     /// the allocator at a time
     pub unsafe fn alloc(&self, l: Layout) -> Result<NonNull<u8>, AllocError> {
         let s = l.size() + l.align();
-        let allocated = s + self.allocated.fetch_add(s, Ordering::Relaxed);
-        if allocated > self.limit.load(Ordering::Relaxed) {
-            return Err(AllocError::OutOfMemory);
-        }
-        if allocated > self.next_gc.load(Ordering::Relaxed) {
-            self.next_gc.store(allocated * 2, Ordering::Relaxed);
-            unsafe {
-                (*self.runtime).gc();
+        let mut allocated = s + self.allocated.fetch_add(s, Ordering::Relaxed);
+        let limit = self.limit.load(Ordering::Relaxed);
+        if allocated > self.next_gc.load(Ordering::Relaxed) || allocated > limit {
+            // collect before giving up, and derive the next threshold from what survived
+            if !self.runtime.is_null() {
+                unsafe {
+                    (*self.runtime).gc();
+                }
             }
             debug!(
                 "GC done. Allocated before: {allocated}. Allocated now: {}",
                 self.allocated.load(Ordering::Relaxed)
             );
+            allocated = self.allocated.load(Ordering::Relaxed);
+            self.next_gc.store(
+                (allocated * 2).max(Self::initial_threshold(limit)),
+                Ordering::Relaxed,
+            );
+        }
+        if allocated > limit {
+            // the request is refused: it must not stay on the books
+            self.allocated.fetch_sub(s, Ordering::Relaxed);
+            return Err(AllocError::OutOfMemory);
         }
         let ptr = alloc(l);
         Ok(NonNull::new(ptr).unwrap())
